@@ -25,7 +25,9 @@ Definition mk_params (mind expd maxdep vp evp q th eth veto mir mdr cr : Z) (cd 
   {| min_deposit := mind; exp_min_deposit := expd; max_deposit_period := maxdep; voting_period := vp;
      exp_voting_period := evp; quorum := q; threshold := th; exp_threshold := eth; veto_threshold := veto;
      min_initial_ratio := mir; min_deposit_ratio := mdr; cancel_ratio := cr; cancel_dest := cd;
-     burn_prevote := bp; burn_quorum := bq; burn_veto := bv |}.
+     burn_prevote := bp; burn_quorum := bq; burn_veto := bv;
+     bad_inactive_dequeued := sh_bad_inactive_dequeued gen_shape;
+     bad_active_dequeued_by_key := sh_bad_active_dequeued_by_key gen_shape |}.
 Definition mk_cp (r p q : Z) : cparams := {| c_ratio := r; c_period := p; c_quorum := q |}.
 Definition mk_msg (t : Z) (sp : coins) (a : action) : msg := {| m_type := t; m_spend := sp; m_act := a |}.
 Definition mk_stk (v d : list (Z * Z * Z)) (tb : Z) : staking :=
@@ -58,7 +60,8 @@ Definition result_num (r : result) : Z :=
   match r with ROk => 0 | RHalt => -1 | RErr e => ecode_num e end.
 Definition status_num (s : status) : Z :=
   match s with SDeposit => 1 | SVoting => 2 | SPassed => 3 | SRejected => 4 | SFailed => 5
-             | SDropped => 6 | SCancelled => 7 end.
+             | SDropped => 6 | SCancelled => 7
+             | SBadDeposit => 8 | SBadVoting => 9 | SStale => 10 | SFailedBad => 5 end.
 
 Fixpoint insert_pair (k : Z * Z) (l : list (Z * Z)) : list (Z * Z) :=
   match l with
@@ -67,12 +70,19 @@ Fixpoint insert_pair (k : Z * Z) (l : list (Z * Z)) : list (Z * Z) :=
   end.
 Definition sort_pairs (l : list (Z * Z)) : list (Z * Z) := fold_right insert_pair [] l.
 
+(* the minimal record failUnsupportedProposal writes: id, FAILED, nothing else *)
+Definition project_failed_bad (p : proposal) : pobs :=
+  {| po_id := p_id p; po_status := 5; po_exp := false; po_total := 0; po_deps := []; po_vend := 0;
+     po_tally := [0; 0; 0; 0] |}.
+
 Definition project_prop (p : proposal) : pobs :=
+  match p_status p with SFailedBad => project_failed_bad p | _ =>
   {| po_id := p_id p; po_status := status_num (p_status p); po_exp := p_expedited p;
      po_total := p_total p;
      po_deps := if is_open (p_status p) then sort_pairs (p_deps p) else [];
-     po_vend := match p_status p with SDeposit => 0 | _ => p_vend p end;
-     po_tally := [t_yes (p_tally p); t_abstain (p_tally p); t_no (p_tally p); t_veto (p_tally p)] |}.
+     po_vend := match p_status p with SDeposit | SBadDeposit => 0 | _ => p_vend p end;
+     po_tally := [t_yes (p_tally p); t_abstain (p_tally p); t_no (p_tally p); t_veto (p_tally p)] |}
+  end.
 
 Definition project (abt0 : Z) (r : result) (s : state) (accts : list Z) : obs :=
   {| ob_res := result_num r;
